@@ -168,6 +168,12 @@ def extra_cases(tier, seed):
         h2r = dict(kind='arc', n=n, radius=R, ang1=360., ang2=180., r=1e-4 * lam)
         yield dict(extra='two-half-arcs-n%d' % n, env='free', f=f, wires=[h1, h2])
         yield dict(extra='two-half-arcs-rev-n%d' % n, env='free', f=f, wires=[h1, h2r])
+    # curve ends that are on the plane only numerically: half loops (sin(pi) = 1.2e-16), in both directions, with a tail on top
+    for n in (4, 6, 9):
+        R = 0.05 * lam
+        for a1, a2 in ((0., 180.), (180., 0.), (0., 90.), (90., 0.), (180., 90.)):
+            arc = dict(kind='arc', n=n, radius=R, ang1=a1, ang2=a2, r=1e-4 * lam)
+            yield dict(extra='ground-arc-%g-%g-n%d' % (a1, a2, n), env='ideal', f=f, wires=[arc])
     for c in c06.extras(tier, seed):
         for i, ws in enumerate(c['descs']):
             yield dict(extra='%s#%d' % (c['extra'], i), env=c['env'], f=c['f'], wires=ws)
@@ -179,14 +185,20 @@ def eval_extra(c):
     m = geom.build(dict(f=c['f'], env=c['env'], wires=c['wires']), sources=False, loads=False)
     viol = list(geom.pulse_geometry_violations(m))
     nseg = sum(g.n_segments for g in m.geo)
-    ngnd = sum(int(a) + int(b) for g in m.geo for a, b in [g.is_ground])
+    # grounded ends from the segment tables (an end within the matching tolerance of the plane), not from the model's flags
+    tolg = 1e-3 * min(sg.seg_len for g in m.geo for sg in g.segments)
+    gflag = [[ground and abs(float(g.segments[0].p1[2])) < tolg, ground and abs(float(g.segments[-1].p2[2])) < tolg] for g in m.geo]
+    ngnd = sum(int(a) + int(b) for a, b in gflag)
+    for g, (a, b) in zip(m.geo, gflag):
+        if (bool(g.is_ground[0]), bool(g.is_ground[1])) != (a, b):
+            viol.append(('GROUND-FLAG', 'object %d: ends at z = %.3g / %.3g are flagged grounded %s' % (g.n + 1, float(g.segments[0].p1[2]), float(g.segments[-1].p2[2]), tuple(map(bool, g.is_ground)))))
     # junctions: cluster the non-grounded object ends (exact coincidences in these structures)
     ends = []
-    for g in m.geo:
+    for gi, g in enumerate(m.geo):
         for e, p in ((0, g.segments[0].p1), (1, g.segments[-1].p2)):
-            if not g.is_ground[e]:
+            if not gflag[gi][e]:
                 ends.append(np.array(p, float))
-    tol = 1e-3 * m.min_seglen
+    tol = tolg
     used = [False] * len(ends)
     njun = 0
     for i in range(len(ends)):
